@@ -780,11 +780,57 @@ func ruleRangeWindow(r *Run) {
 				f2, base2, ok2 := loadOfField(fs["Set"])
 				good = ok2 && f2 == "Set" && describe(base2, 0) == describe(base, 0)
 			}
+			// the series walked are those of the window as this step left it: the list of keys is
+			// computed from the window in this call (after the fill), not one remembered from an
+			// earlier step
+			if good {
+				nxGrp := funcGroup(nx)
+				var loop *rangeLoop
+				for _, g := range nxGrp {
+					for _, l := range rangeIndexLoops(g) {
+						if l.Blocks[agg.Block()] {
+							loop = l
+						}
+					}
+				}
+				if loop != nil {
+					src := originValueIn(stripTypeOnly(loop.X), nxGrp)
+					kc, isCall := src.(*ssa.Call)
+					fromWindow := false
+					if isCall {
+						for _, a := range kc.Call.Args {
+							if f, b, ok := loadOfField(a); ok && f == "window" && originValueIn(b, nxGrp) == ssa.Value(nx.Params[0]) {
+								fromWindow = true
+							}
+						}
+					}
+					var fillC ssa.Instruction
+					for _, g := range nxGrp {
+						for _, c := range callsIn(g) {
+							if callIs(c, mp, "(*rangeAggIterator).fillWindow") {
+								fillC = c
+							}
+						}
+					}
+					switch {
+					case !isCall || !fromWindow:
+						good = false
+						oo.Fail(r.pos(agg.Pos()), "the series reported are walked from %s, not from a key list computed from the window in this step: a series that entered the window is missed when the list is stale", describe(loop.X, 1))
+					case fillC != nil && !runsBefore(fillC, kc, nx, nxGrp):
+						good = false
+						oo.Fail(r.pos(kc.Pos()), "the key list is computed before the window is filled for this step")
+					}
+					if !good {
+						goto doneOutput
+					}
+				}
+			}
 			if good {
 				oo.OK("Sample{Data: agg.Aggregate(s.Data), Set: s.Set}").At(r.pos(agg.Pos()))
 			} else {
 				oo.Fail(r.pos(agg.Pos()), "the reported sample does not pair Aggregate(s.Data) with s.Set of the same series")
 			}
+		doneOutput:
 		}
 	}
 }
